@@ -18,6 +18,7 @@ func init() { props["C14"] = checkC14 }
 type symLeaf struct {
 	operand string
 	lf, cr  bool
+	crlf    bool // a two-byte "\r\n" needle: neither a bare-LF nor a bare-CR test
 	node    ast.Node
 }
 
@@ -45,6 +46,14 @@ func (s *symCtx) charConst(e ast.Expr) (int64, bool) {
 }
 
 func (s *symCtx) stringConst(e ast.Expr) (string, bool) {
+	// []byte("...") of a constant
+	if call, ok := e.(*ast.CallExpr); ok && len(call.Args) == 1 {
+		if tv, ok := s.info.Types[call.Fun]; ok && tv.IsType() {
+			if _, isSlice := tv.Type.Underlying().(*types.Slice); isSlice {
+				return s.stringConst(call.Args[0])
+			}
+		}
+	}
 	tv, ok := s.info.Types[e]
 	if !ok || tv.Value == nil || tv.Value.Kind() != constant.String {
 		return "", false
@@ -135,7 +144,7 @@ func (s *symCtx) leavesOf(e ast.Expr, out *[]symLeaf) {
 							ops = append(ops, types.ExprString(b))
 						}
 					}
-					*out = append(*out, symLeaf{operand: fn.Name() + "(" + strings.Join(ops, ",") + ")", lf: str == "\n", cr: str == "\r" || str == "\r\n", node: x})
+					*out = append(*out, symLeaf{operand: fn.Name() + "(" + strings.Join(ops, ",") + ")", lf: str == "\n", cr: str == "\r", crlf: str == "\r\n", node: x})
 				}
 			}
 			return
@@ -158,8 +167,8 @@ func (s *symCtx) leavesOf(e ast.Expr, out *[]symLeaf) {
 				if v, ok := s.charConst(a); ok && (v == '\n' || v == '\r') {
 					*out = append(*out, symLeaf{operand: fn.Name() + "(" + types.ExprString(x.Args[0]) + ")", lf: v == '\n', cr: v == '\r', node: x})
 				}
-				if str, ok := s.stringConst(a); ok && (str == "\n" || str == "\r") {
-					*out = append(*out, symLeaf{operand: fn.Name() + "(" + types.ExprString(x.Args[0]) + ")", lf: str == "\n", cr: str == "\r", node: x})
+				if str, ok := s.stringConst(a); ok && (str == "\n" || str == "\r" || str == "\r\n") {
+					*out = append(*out, symLeaf{operand: fn.Name() + "(" + types.ExprString(x.Args[0]) + ")", lf: str == "\n", cr: str == "\r", crlf: str == "\r\n", node: x})
 				}
 			}
 		}
@@ -465,6 +474,10 @@ func checkC14(c *Ctx) {
 					key := fmt.Sprintf("%s:decision#%d:%s", fname, i+1, op)
 					lf, cr := ops[op][0], ops[op][1]
 					switch {
+					case !lf && !cr:
+						// only the two-byte ending is looked for here; the single-byte tests are separate decisions
+						kinds["crlf-only"]++
+						c.OK("SYM", key, d.pos, d.kind+" looks for the two-byte line ending only")
 					case lf && cr:
 						kinds["symmetric"]++
 						c.OK("SYM", key, d.pos, d.kind+" tests both LF and CR")
